@@ -43,6 +43,8 @@ class Cfg:
     lines: bool = False  # <line> elements (need strokes to be visible)
     translucent_fill: bool = False
     distinct_fill: bool = True
+    gradient_bias: int = 2  # a leaf gets a gradient fill with probability 1/(bias+1)
+    max_gradients: int = 3
 
 
 def fmt(x: float) -> str:
@@ -294,6 +296,7 @@ class _Ctx:
         self.feat = set()
         self.defs: List[dict] = []
         self.clips: List[str] = []
+        self.grads: List[str] = []
 
     def new_id(self, prefix="e"):
         self.nid += 1
@@ -302,6 +305,15 @@ class _Ctx:
 
 def _paint_leaf(draw, cx: _Ctx, n):
     cfg = cx.cfg
+    if cfg.gradients and cx.grads and n["tag"] != "line" and draw(st.integers(0, cfg.gradient_bias)) == 0:
+        ref = f"url(#{draw(st.sampled_from(cx.grads))})"
+        if draw(st.booleans()):
+            n["a"]["fill"] = ref
+        else:
+            n["s"]["fill"] = ref
+        cx.feat.add("gradient-fill")
+        cx.nleaves += 1
+        return
     if cfg.distinct_fill and not cfg.cascade:
         col = cx.colors[cx.nleaves % len(cx.colors)]
         if draw(st.booleans()):
@@ -494,6 +506,68 @@ def _gen_clippath(draw, cx):
     return cp
 
 
+def _gen_gradient(draw, cx):
+    gid = cx.new_id(draw(st.sampled_from(["grad", "g_", "lg"])))
+    kind = draw(st.sampled_from(["linearGradient", "linearGradient", "radialGradient"]))
+    a = {"id": gid}
+    box = cx.box
+    units = draw(st.sampled_from([None, "objectBoundingBox", "userSpaceOnUse"]))
+    if units:
+        a["gradientUnits"] = units
+    user = units == "userSpaceOnUse"
+    pct = draw(st.booleans())
+
+    def coord(frac, horizontal):
+        if pct:
+            return f"{fmt(round(frac * 100, 1))}%"
+        if user:
+            return fmt(round((box.x if horizontal else box.y) + frac * (box.w if horizontal else box.h), 2))
+        return fmt(round(frac, 3))
+
+    if kind == "linearGradient":
+        if draw(st.integers(0, 3)):
+            a["x1"], a["y1"] = coord(draw(st.sampled_from([0, 0.1, 0.25])), True), coord(draw(st.sampled_from([0, 0.2])), False)
+            a["x2"], a["y2"] = coord(draw(st.sampled_from([1, 0.9, 0.6])), True), coord(draw(st.sampled_from([0, 1, 0.7])), False)
+    else:
+        if draw(st.integers(0, 3)):
+            a["cx"], a["cy"] = coord(draw(st.sampled_from([0.5, 0.4])), True), coord(draw(st.sampled_from([0.5, 0.6])), False)
+            if pct:
+                a["r"] = draw(st.sampled_from(["50%", "40%", "65%"]))
+            elif user:
+                a["r"] = fmt(round(draw(st.sampled_from([0.3, 0.5])) * box.ext, 2))
+            else:
+                a["r"] = draw(st.sampled_from(["0.5", "0.4", "0.7"]))
+            if draw(st.integers(0, 2)) == 0:
+                a["fx"] = a["cx"]
+    if draw(st.integers(0, 2)) == 0:
+        a["gradientTransform"] = draw(transform_list(box)) if user else draw(st.sampled_from(["translate(0.1 0.05)", "rotate(30 0.5 0.5)", "scale(0.8)", "translate(0.2) scale(1 0.5)"]))
+    if draw(st.integers(0, 3)) == 0:
+        a["spreadMethod"] = draw(st.sampled_from(["pad", "reflect", "repeat"]))
+    g = node(kind, a)
+    own_stops = True
+    if cx.grads and draw(st.integers(0, 2)) == 0:
+        a["xlink:href"] = f"#{draw(st.sampled_from(cx.grads))}"
+        cx.feat.add("gradient-href")
+        own_stops = draw(st.booleans())
+    if own_stops:
+        n = draw(st.sampled_from([2, 2, 3]))
+        offs = sorted(draw(st.lists(st.sampled_from([0, 0.2, 0.4, 0.5, 0.7, 1]), min_size=n, max_size=n)))
+        for i, o in enumerate(offs):
+            sa = {"offset": draw(st.sampled_from([fmt(o), f"{fmt(o * 100)}%"]))}
+            col = PALETTE[(len(cx.grads) * 3 + i) % len(PALETTE)]
+            if draw(st.booleans()):
+                sa["stop-color"] = col
+                stop = node("stop", sa)
+            else:
+                stop = node("stop", sa, {"stop-color": col})
+            if draw(st.integers(0, 4)) == 0:
+                stop["a"]["stop-opacity"] = "0.5"
+            g["c"].append(stop)
+    cx.grads.append(gid)
+    cx.feat.add(kind)
+    return g
+
+
 @st.composite
 def document(draw, cfg: Cfg, hook=None, root_hook=None):
     root, feat = draw(document_ast(cfg, hook, root_hook))
@@ -507,6 +581,12 @@ def document_ast(draw, cfg: Cfg, hook=None, root_hook=None):
     cx = _Ctx(cfg, box)
     root = node("svg", {"viewBox": f"{fmt(box.x)} {fmt(box.y)} {fmt(box.w)} {fmt(box.h)}"})
     defs = node("defs")
+    if cfg.gradients:
+        for _ in range(draw(st.integers(1, cfg.max_gradients))):
+            defs["c"].append(_gen_gradient(draw, cx))
+        if draw(st.booleans()):
+            defs["c"].reverse()  # templates declared after their users
+            cx.feat.add("gradient-template-after-user")
     if cfg.clip:
         for _ in range(draw(st.sampled_from([1, 1, 2, 3]))):
             defs["c"].append(_gen_clippath(draw, cx))
